@@ -36,10 +36,10 @@ type stubFact struct {
 }
 
 type facts struct {
-	GOOS    string            `json:"goos"`
-	GOARCH  string            `json:"goarch"`
-	Error   string            `json:"error,omitempty"`
-	Consts  map[string]string `json:"consts"`
+	GOOS   string            `json:"goos"`
+	GOARCH string            `json:"goarch"`
+	Error  string            `json:"error,omitempty"`
+	Consts map[string]string `json:"consts"`
 	// AllUnix: every integer constant internal/unix exports on this target (a constant added later is covered without a list here)
 	AllUnix map[string]string `json:"all_unix"`
 	Files   []string          `json:"files"`
